@@ -85,6 +85,48 @@ func (e *c06ex) Exec(op string) string {
 			return "bad-op"
 		}
 		return okErr(e.c.Do(e.u(w[1]), "transfer", e.u(w[2]).Addr, w[3], "ref"))
+	case "tx2":
+		// two transfers in ONE task list (or one batch): each is all-or-nothing on its own; what a
+		// failed one had already moved must not ride along with the next
+		if !need(8, 2, 3, 5, 6) {
+			return "bad-op"
+		}
+		a1 := e.c.Signed(e.u(w[2]), "transfer", e.u(w[3]).Addr, w[4], "ref")
+		a2 := e.c.Signed(e.u(w[5]), "transfer", e.u(w[6]).Addr, w[7], "ref")
+		out := []string{"err", "err"}
+		if w[1] == "tasks" {
+			b := e.c.ExecTasks(&fpb.Task{Id: simpeer.NewTxID(), Method: "transfer", Args: a1}, &fpb.Task{Id: simpeer.NewTxID(), Method: "transfer", Args: a2})
+			if b.Resp == nil || len(b.Resp.TxResponses) != 2 {
+				return "err,err"
+			}
+			for i, tr := range b.Resp.TxResponses {
+				if tr.GetError() == nil {
+					out[i] = "ok"
+				}
+			}
+			return strings.Join(out, ",")
+		}
+		// batch: a request refused at submission is not listed
+		var ids []string
+		var pos []int
+		for i, a := range [][]string{a1, a2} {
+			if id, r := e.c.Submit("transfer", a); r.OK() {
+				ids = append(ids, id)
+				pos = append(pos, i)
+			}
+		}
+		if len(ids) > 0 {
+			b := e.c.ExecIDs(ids...)
+			if b.Resp == nil || len(b.Resp.TxResponses) != len(ids) {
+				return "err,err"
+			}
+			for j, tr := range b.Resp.TxResponses {
+				if tr.GetError() == nil {
+					out[pos[j]] = "ok"
+				}
+			}
+		}
+		return strings.Join(out, ",")
 	case "force":
 		if !need(4, 1, 2) {
 			return "bad-op"
@@ -262,8 +304,16 @@ func genC06(c *Cfg, emit func([]string)) {
 				h = append(h, "emit "+u+" "+amount(u))
 			case 1:
 				h = append(h, "burn "+u+" "+amount(u))
-			case 2, 3:
+			case 2:
 				h = append(h, "transfer "+u+" "+v+" "+amount(u))
+			case 3:
+				if c.Rng.Intn(2) == 0 {
+					h = append(h, "transfer "+u+" "+v+" "+amount(u))
+				} else {
+					// two transfers in one task list / batch; the first often not fully funded once the fee is due
+					u2, v2 := pick(users), pick(users)
+					h = append(h, fmt.Sprintf("tx2 %s %s %s %s %s %s %s", pick([]string{"tasks", "batch"}), u, v, amount(u), u2, v2, pick([]string{"1", "2", "7"})))
+				}
 			case 4:
 				h = append(h, "force "+u+" "+v+" "+amount(u))
 			case 5:
@@ -294,6 +344,6 @@ func genC06(c *Cfg, emit func([]string)) {
 		}
 		emit(h)
 	}
-	c.Rule = fmt.Sprintf("%d random histories of 3..%d operations through Invoke (emit, burn, transfer with and without a fee leg (fee collector among the senders), forced transfer by the admin, external lock, swap begin / cancel / robot completion, cross-channel transfer from / cancel) over 3 accounts incl. self, amounts {0, 1, balance-1, balance, balance+1, -1, 2^64+1, random small} on funding {5, 1000, 2^128, 2^256}; after every step: all spendable and locked balances, the given-out counter, the escrow of open swaps and total_emission; non-trivial = at least one emission; distinct = sha256", nHist, maxSteps+2)
+	c.Rule = fmt.Sprintf("%d random histories of 3..%d operations through Invoke (emit, burn, transfer with and without a fee leg (fee collector among the senders), two transfers in one task list or batch, forced transfer by the admin, external lock, swap begin / cancel / robot completion, cross-channel transfer from / cancel) over 3 accounts incl. self, amounts {0, 1, balance-1, balance, balance+1, -1, 2^64+1, random small} on funding {5, 1000, 2^128, 2^256}; after every step: all spendable and locked balances, the given-out counter, the escrow of open swaps and total_emission; non-trivial = at least one emission; distinct = sha256", nHist, maxSteps+2)
 	c.Extra = map[string]any{"histories": nHist}
 }
